@@ -70,6 +70,44 @@ print(json.dumps(out))
 '''
 
 
+REPLAY_INFER = r'''
+import tempfile, importlib.util, os, sys, shutil
+from guppylang_internals.error import GuppyError
+src = """from guppylang import guppy
+from guppylang.std.option import Option, nothing, some
+T = guppy.type_var("T")
+@guppy
+def mk_none() -> Option[T]:
+    return nothing()
+@guppy
+def mk_some(x: int) -> Option[int]:
+    return some(x)
+@guppy.overload(mk_none, mk_some)
+def mk(): ...
+@guppy
+def ident(x: T) -> T:
+    return x
+@guppy
+def direct() -> None:
+    y: Option[int] = ident(mk_none())
+@guppy
+def through_overload() -> None:
+    y: Option[int] = ident(mk())
+"""
+d = tempfile.mkdtemp(dir=os.environ.get("TMPDIR", "/var/tmp")); fn = os.path.join(d, "replay_c15i.py"); open(fn, "w").write(src)
+spec = importlib.util.spec_from_file_location("replay_c15i", fn); m = importlib.util.module_from_spec(spec); sys.modules["replay_c15i"] = m
+spec.loader.exec_module(m)
+res = {}
+for name in ("direct", "through_overload"):
+    try:
+        getattr(m, name).check(); res[name] = "accepted"
+    except GuppyError as ex:
+        res[name] = "rejected:" + type(ex.error).__name__
+shutil.rmtree(d, ignore_errors=True)
+print(json.dumps({"violates": res["direct"] != res["through_overload"], "observed": res, "required": "the call through the overload behaves like the call of the variant it picks"}))
+'''
+
+
 def run(chk):
     e = mk_engine(chk)
     for q in ("OverloadedFunctionDef.check_call", "OverloadedFunctionDef.synthesize_call", "OverloadedFunctionDef._call_error"):
@@ -84,15 +122,16 @@ def run(chk):
 
     for mode in ("check_call", "synthesize_call"):
         for n in (1, 2, 3):
-            outcome = [z3.Int(f"outcome{i}") for i in range(n)]   # 0 accept, 1 GuppyError, 2 other exception
+            outcome = [z3.Int(f"outcome{i}") for i in range(n)]   # 0 accept, 1 GuppyError, 2 other exception, 3 GuppyTypeInferenceError
 
             def t(it, mode=mode, n=n, outcome=outcome):
                 m = e.module(MOD)
                 OF = it.lookup_global(m, "OverloadedFunctionDef")
                 GE = it.lookup_global(e.module("guppylang_internals.error"), "GuppyError")
+                GTIE = it.lookup_global(e.module("guppylang_internals.error"), "GuppyTypeInferenceError")
                 log = []
                 for o in outcome:
-                    it.ctx.assume(z3.And(o >= 0, o <= 2))
+                    it.ctx.assume(z3.And(o >= 0, o <= 3))
                 args = [ast_from_source(it, "1", "eval").fields["body"], ast_from_source(it, "2", "eval").fields["body"]]
                 # an argument as tracing passes it: a place node whose place carries the comptime value.  Only the
                 # NODE may be duplicated — the place and the value behind it are not AST and must be handed on
@@ -114,6 +153,8 @@ def run(chk):
                             return (("RESULT", i), ("SECOND", i))
                         if it.ctx.branch(outcome[i] == 1):
                             raise PyRaise(it.call(GE, [SObj(ClassVal("Diag"), {})], {}))
+                        if it.ctx.branch(outcome[i] == 3):
+                            raise PyRaise(it.call(GTIE, [SObj(ClassVal("Diag"), {"kind": "cannot-infer", "variant": i})], {}))
                         raise PyRaise(it.make_exc("KeyError", "internal"))
                     return SObj(CD, {"ty": ("SIG", i), "check_call": Builtin("check_call", call), "synthesize_call": Builtin("synthesize_call", call)})
                 ids = [SObj(ClassVal("DefId", builtin=True), {"i": i}) for i in range(n)]
@@ -128,26 +169,38 @@ def run(chk):
                 return it.call_method(ov, "synthesize_call", [args, node, ctx])
             paths = e.explore(t)
 
-            def post(p, n=n, outcome=outcome):
+            def post(p, n=n, outcome=outcome, mode=mode):
                 log = p.ctx.ghost["log"]
                 called = [i for i, _ in log]
                 conj = [z3.BoolVal(called == list(range(len(called))))]         # consulted in declaration order, no gaps
                 conj.append(z3.BoolVal(all(pr for _, pr in log)))                 # every attempt sees pristine arguments
                 k = len(called)
+                failed = lambda i: z3.Or(outcome[i] == 1, outcome[i] == 3)      # noqa: E731  (a GuppyTypeInferenceError is a GuppyError)
                 for i in range(k - 1):
-                    conj.append(outcome[i] == 1)                                   # went on only after a GuppyError
+                    conj.append(failed(i))                                         # went on only after a GuppyError
                 if p.kind == "return":
                     conj += [z3.BoolVal(k >= 1 and p.value == (("RESULT", k - 1), ("SECOND", k - 1))), outcome[k - 1] == 0]
+                elif p.kind == "raise" and p.raised(e, "GuppyTypeInferenceError"):
+                    # only when synthesising, every variant failed and one of them for want of an expected type: the FIRST
+                    # such error is passed on, so that an enclosing call retries with the expected type (as it does
+                    # for a direct call of that variant)
+                    err = p.value.fields.get("error")
+                    v = err.fields.get("variant") if isinstance(err, SObj) else None
+                    conj += [z3.BoolVal(mode == "synthesize_call" and k == n and v is not None), failed(k - 1)]
+                    if v is not None:
+                        conj += [outcome[v] == 3] + [outcome[j] != 3 for j in range(v)]
                 elif p.kind == "raise" and p.raised(e, "GuppyError"):
                     err = p.value.fields.get("error")
-                    conj += [z3.BoolVal(k == n and isinstance(err, SObj) and err.fields.get("kind") == "OverloadNoMatchError"), outcome[k - 1] == 1]
+                    conj += [z3.BoolVal(k == n and isinstance(err, SObj) and err.fields.get("kind") == "OverloadNoMatchError"), failed(k - 1)]
+                    if mode == "synthesize_call":
+                        conj += [outcome[j] != 3 for j in range(n)]
                 elif p.kind == "raise":
                     conj += [z3.BoolVal(p.raised(e, "KeyError")), outcome[k - 1] == 2]
                 else:
                     return z3.BoolVal(False)
                 return z3.And(*conj)
             chk.prove_paths(f"OverloadedFunctionDef.{mode}[{n}-variants]:first-accepting-variant-wins/\\later-ones-not-consulted/\\only-GuppyError-falls-through/\\each-attempt-sees-the-original-arguments(fresh-nodes,places-and-comptime-values-shared)",
-                            paths, post, func=f"{MOD}:OverloadedFunctionDef.{mode}", replay=lambda m: {"script": REPLAY, "input": {}})
+                            paths, post, func=f"{MOD}:OverloadedFunctionDef.{mode}", replay=lambda m, mode=mode: {"script": REPLAY_INFER if mode == "synthesize_call" else REPLAY, "input": {}})
             chk.record(f"OverloadedFunctionDef.{mode}[{n}]:all-outcome-combinations-explored", len(paths) >= 2 * n + 1, f"{len(paths)} paths", kind="reachability")
 
     # ---- _Guppy.overload keeps the declaration order
